@@ -238,29 +238,70 @@ def _is_pointer(n):
     return t.endswith('*')
 
 
-def _must_advance(stmts, pid):
-    """Does every path through stmts that completes normally advance the
-    cursor variable pid?  (structural must-analysis)"""
+def _block(n):
+    if n is None or not n.get('kind'):
+        return []
+    return children(n) if n.get('kind') == 'CompoundStmt' else [n]
+
+
+def _own_continue(stmt):
+    """Does stmt contain a `continue` of the loop it sits in (not of a nested loop)?"""
+    def rec(n):
+        for c in children(n):
+            k = c.get('kind')
+            if k == 'ContinueStmt':
+                return True
+            if k in ('ForStmt', 'WhileStmt', 'DoStmt', 'CXXForRangeStmt', 'LambdaExpr'):
+                continue
+            if rec(c):
+                return True
+        return False
+    return stmt.get('kind') == 'ContinueStmt' or rec(stmt)
+
+
+def _must(stmts, steps):
+    """Does every path through stmts that reaches the end of the loop body (falls off the end or
+    `continue`s) execute a statement for which steps(stmt) is true?  Structural must-analysis:
+    a sequence does when one of its unconditional statements does, an `if` when both arms do
+    or leave the loop; a `continue` met before the step is a path without it."""
     for s in stmts:
         k = s.get('kind')
         if k == 'IfStmt':
-            c = children(s)
+            c = [x for x in children(s)]
+            if s.get('hasInit') or s.get('hasVar'):
+                c = c[1:]
             then = c[1] if len(c) > 1 else None
             els = c[2] if len(c) > 2 else None
-            t = _must_advance(children(then) if then.get('kind') == 'CompoundStmt' else [then], pid) or _leaves(then)
-            e = els is not None and (_must_advance(children(els) if els.get('kind') == 'CompoundStmt' else [els], pid) or _leaves(els))
+            t = then is not None and (_must(_block(then), steps) or _leaves(then))
+            e = els is not None and (_must(_block(els), steps) or _leaves(els))
             if t and e:
                 return True
+            if _own_continue(s):
+                return False
             continue
         if k == 'CompoundStmt':
-            if _must_advance(children(s), pid):
+            if _must(children(s), steps):
                 return True
+            if _own_continue(s):
+                return False
             continue
-        if k in ('ForStmt', 'WhileStmt', 'DoStmt', 'CXXForRangeStmt', 'SwitchStmt', 'CXXTryStmt'):
+        if k in ('ForStmt', 'WhileStmt', 'DoStmt', 'CXXForRangeStmt'):
             continue
-        if pid in _advances(s):
+        if k in ('SwitchStmt', 'CXXTryStmt'):
+            if _own_continue(s):
+                return False
+            continue
+        if k == 'ContinueStmt':
+            return False
+        if steps(s):
             return True
     return False
+
+
+def _must_advance(stmts, pid):
+    """Does every path through stmts that completes normally advance the
+    cursor variable pid?"""
+    return _must(stmts, lambda s: pid in _advances(s))
 
 
 def _leaves(n):
@@ -276,8 +317,20 @@ def _leaves(n):
     return False
 
 
+def _ref_id(n):
+    n = strip(n, explicit=True)
+    return (n.get('referencedDecl') or {}).get('id') if n.get('kind') == 'DeclRefExpr' else None
+
+
+def _call_takes(call, vid):
+    return any(_ref_id(z) == vid for z in children(call)[1:])
+
+
 def _advances(stmt):
-    """Pointer variables advanced by this (non-branching) statement."""
+    """Pointer variables advanced by this (non-branching) statement: ++p, p += n, and p
+    reassigned from a call that was given p (`std::tie(x, p) = decode(p)`, `p = decode(p, out)`,
+    `auto [x, q] = ...` is a new variable and not an advance): the decode helpers return their
+    argument advanced by what they read - D1 checks every one of those reads."""
     out = set()
     for x in walk(stmt):
         k = x.get('kind')
@@ -289,6 +342,20 @@ def _advances(stmt):
             l = strip(children(x)[0], explicit=True)
             if l.get('kind') == 'DeclRefExpr' and _is_pointer(l):
                 out.add(l['referencedDecl']['id'])
+        elif k == 'BinaryOperator' and x.get('opcode') == '=':
+            l = strip(children(x)[0], explicit=True)
+            r = strip(children(x)[1], explicit=True)
+            if l.get('kind') == 'DeclRefExpr' and _is_pointer(l):
+                vid = l['referencedDecl']['id']
+                if r.get('kind') == 'CallExpr' and _call_takes(r, vid):
+                    out.add(vid)
+                elif r.get('kind') == 'BinaryOperator' and r.get('opcode') == '+' and \
+                        _ref_id(children(r)[0]) == vid:
+                    out.add(vid)            # p = p + n
+                elif r.get('kind') == 'MemberExpr' and r.get('name') == 'second' and children(r):
+                    b = strip(children(r)[0], explicit=True)
+                    if b.get('kind') == 'CallExpr' and _call_takes(b, vid):
+                        out.add(vid)        # p = decode(p).second
         elif k == 'CXXOperatorCallExpr':
             c = children(x)
             op = (strip(c[0]).get('referencedDecl') or {}).get('name')
@@ -301,10 +368,136 @@ def _advances(stmt):
                         t = strip(a, explicit=True)
                         if t.get('kind') == 'DeclRefExpr' and _is_pointer(t) and rhs_calls:
                             # the same pointer must be the argument of the call
-                            args = [strip(z, explicit=True) for z in children(rhs_calls[0])[1:]]
-                            if any(z.get('kind') == 'DeclRefExpr' and z['referencedDecl']['id'] == t['referencedDecl']['id'] for z in args):
+                            if _call_takes(rhs_calls[0], t['referencedDecl']['id']):
                                 out.add(t['referencedDecl']['id'])
     return out
+
+
+def _int_steps(stmt, vid):
+    """Steps of the integer variable vid made by this statement: list of +1 / -1 (direction) for
+    ++v, v++, v += c, v = v + c (c a positive literal) and the decreasing forms; None in the
+    list for any other write to vid."""
+    from ..program import literal_value
+    out = []
+    for x in walk(stmt):
+        k = x.get('kind')
+        if k == 'UnaryOperator' and x.get('opcode') in ('++', '--'):
+            if _ref_id(children(x)[0]) == vid:
+                out.append(1 if x['opcode'] == '++' else -1)
+        elif k == 'CompoundAssignOperator' and _ref_id(children(x)[0]) == vid:
+            c = literal_value(children(x)[1])
+            if x.get('opcode') in ('+=', '-=') and isinstance(c, int) and not isinstance(c, bool) and c > 0:
+                out.append(1 if x['opcode'] == '+=' else -1)
+            else:
+                out.append(None)
+        elif k == 'BinaryOperator' and x.get('opcode') == '=' and _ref_id(children(x)[0]) == vid:
+            r = strip(children(x)[1], explicit=True)
+            c = literal_value(children(r)[1]) if r.get('kind') == 'BinaryOperator' and len(children(r)) == 2 else None
+            if r.get('kind') == 'BinaryOperator' and r.get('opcode') in ('+', '-') and \
+                    _ref_id(children(r)[0]) == vid and isinstance(c, int) and not isinstance(c, bool) and c > 0:
+                out.append(1 if r['opcode'] == '+' else -1)
+            else:
+                out.append(None)
+        elif k == 'CallExpr' and _callee_name(x) == 'tie':
+            if any(_ref_id(a) == vid for a in children(x)[1:]):
+                out.append(None)
+    return out
+
+
+GROW = ('push_back', 'emplace_back', 'insert', 'resize', 'append', 'emplace', 'push_front')
+
+
+def _grown_roots(node):
+    """ids of the variables on which the node calls a growing container method"""
+    out = set()
+    for x in walk(node):
+        if x.get('kind') == 'CXXMemberCallExpr':
+            callee = strip(children(x)[0])
+            if callee.get('name') in GROW and children(callee):
+                r = strip(children(callee)[0], explicit=True)
+                while r.get('kind') == 'MemberExpr' and children(r):
+                    r = strip(children(r)[0], explicit=True)
+                if r.get('kind') == 'DeclRefExpr':
+                    out.add(r['referencedDecl']['id'])
+    return out
+
+
+def _counted(f, cond, inc, body):
+    """`v op bound` with an integer variable v stepped towards the bound on every path round the
+    loop (in the increment expression, or in the body on every continuing path), never written
+    otherwise, and a bound the loop does not change.  -> 'ok: ...' or None."""
+    cn = strip(cond, explicit=True)
+    if cn.get('kind') != 'BinaryOperator' or cn.get('opcode') not in ('<', '<=', '!=', '>', '>='):
+        return None
+    cc = children(cn)
+    for side in (0, 1):
+        vid = _ref_id(cc[side])
+        v = strip(cc[side], explicit=True)
+        if vid is None or _is_pointer(v):
+            continue
+        op = cn['opcode']
+        if side == 1:
+            op = {'<': '>', '<=': '>=', '>': '<', '>=': '<=', '!=': '!='}[op]
+        bound = cc[1 - side]
+        want = {'<': (1,), '<=': (1,), '>': (-1,), '>=': (-1,), '!=': (1, -1)}[op]
+        rounds = [body] + ([inc] if inc is not None and inc.get('kind') else [])
+        writes = []
+        for r in rounds + [cond]:
+            writes += _int_steps(r, vid)
+        if not writes or None in writes or len(set(writes)) != 1 or writes[0] not in want:
+            continue
+        direction = writes[0]
+        stepped = (inc is not None and inc.get('kind') and _int_steps(inc, vid)) or \
+            _int_steps(cond, vid) or _must(_block(body), lambda s: bool(_int_steps(s, vid)))
+        if not stepped:
+            continue
+        assigned = set()
+        for r in rounds:
+            assigned |= _assigned_ids(r)
+        bound_ids = set((x.get('referencedDecl') or {}).get('id') for x in walk(bound) if x.get('kind') == 'DeclRefExpr')
+        grown = set()
+        for r in rounds:
+            grown |= _grown_roots(r)
+        if bound_ids & (assigned | grown):
+            continue
+        if all(x.get('kind') != 'DeclRefExpr' for x in walk(bound)):
+            return 'ok: counted loop with a constant bound'
+        # wire-derived bound: the body consumes input so that the iteration count is bounded by the buffer
+        ptrs = [p['id'] for p in f.params if _is_pointer(p)] + \
+               [x['id'] for x in walk(f.body) if x.get('kind') == 'VarDecl' and _is_pointer(x)]
+        if any(_must_advance(_block(body), p) for p in ptrs):
+            return 'ok: counted loop, induction variable and bound unmodified, cursor advanced on every path'
+        if not ptrs:
+            return 'ok: counted loop without a cursor (bound is a container size)'
+        return 'ok: counted loop, induction variable and bound unmodified'
+    return None
+
+
+def _cursor(f, cond, inc, body):
+    """The condition relates two pointers (`p != end`, `p < end`, `end - p >= k`): the one the loop
+    writes is the cursor and must advance on every path round the loop; the other is the limit and
+    must not be written.  -> 'ok: ...', a reason, or None when the condition is not of this kind."""
+    ids = []
+    for x in walk(cond):
+        if x.get('kind') == 'DeclRefExpr' and _is_pointer(x) and \
+                (x.get('referencedDecl') or {}).get('kind') in ('VarDecl', 'ParmVarDecl'):
+            i = x['referencedDecl']['id']
+            if i not in ids:
+                ids.append(i)
+    if len(ids) != 2:
+        return None
+    rounds = [body] + ([inc] if inc is not None and inc.get('kind') else [])
+    assigned = set()
+    for r in rounds:
+        assigned |= _assigned_ids(r)
+    moving = [i for i in ids if i in assigned]
+    if len(moving) != 1:
+        return 'cursor loop in which %s of the two pointers of the condition is written' % (
+            'neither' if not moving else 'each')
+    pid = moving[0]
+    if (inc is not None and inc.get('kind') and pid in _advances(inc)) or _must_advance(_block(body), pid):
+        return 'ok: cursor loop, the cursor advances on every continuing path'
+    return 'cursor loop whose body does not advance the cursor on every path'
 
 
 def _loop_progress(prog, f, n):
@@ -331,50 +524,27 @@ def _loop_progress(prog, f, n):
     if k == 'ForStmt':
         inner = inner + [{}] * (5 - len(inner))
         init, _, cond, inc, body = inner[:5]
-        if not cond.get('kind'):
-            return 'for loop without a condition'
-        cn = strip(cond)
-        if cn.get('kind') == 'BinaryOperator' and cn.get('opcode') in ('<', '<=', '!='):
-            cc = children(cn)
-            iv = strip(cc[0], explicit=True)
-            if iv.get('kind') == 'DeclRefExpr' and inc.get('kind'):
-                iid = iv['referencedDecl']['id']
-                i2 = strip(inc)
-                inc_ok = i2.get('kind') == 'UnaryOperator' and i2.get('opcode') == '++' and \
-                    strip(children(i2)[0], explicit=True).get('referencedDecl', {}).get('id') == iid
-                body_assigned = _assigned_ids(body)
-                bound_ids = set((x.get('referencedDecl') or {}).get('id') for x in walk(cc[1]) if x.get('kind') == 'DeclRefExpr')
-                if inc_ok and iid not in body_assigned and not (bound_ids & body_assigned):
-                    # wire-derived bound: the body must consume input so that the
-                    # iteration count is bounded by the buffer
-                    lit = all(x.get('kind') != 'DeclRefExpr' for x in walk(cc[1]))
-                    if lit:
-                        return 'ok: counted loop with a constant bound'
-                    ptrs = [p['id'] for p in f.params if _is_pointer(p)] + \
-                           [x['id'] for x in walk(f.body) if x.get('kind') == 'VarDecl' and _is_pointer(x)]
-                    stmts = children(body) if body.get('kind') == 'CompoundStmt' else [body]
-                    if any(_must_advance(stmts, p) for p in ptrs):
-                        return 'ok: counted loop, induction variable and bound unmodified, cursor advanced on every path'
-                    if not ptrs:
-                        return 'ok: counted loop without a cursor (bound is a container size)'
-                    # bound is a container size (result.size()) or a guarded count
-                    return 'ok: counted loop, induction variable and bound unmodified'
-        return 'for loop is not of the counted form (i < bound; ++i) with unmodified i and bound'
-    if k == 'WhileStmt':
+        what = 'for loop'
+    elif k == 'WhileStmt':
         c = children(n)
-        cond, body = c[0], c[-1]
-        cn = strip(cond)
-        ids = [x for x in walk(cn) if x.get('kind') == 'DeclRefExpr' and _is_pointer(x)]
-        if cn.get('kind') == 'BinaryOperator' and cn.get('opcode') in ('!=', '<') and len(ids) == 2:
-            pid = ids[0]['referencedDecl']['id']
-            stmts = children(body) if body.get('kind') == 'CompoundStmt' else [body]
-            if _must_advance(stmts, pid):
-                return 'ok: cursor loop, the cursor advances on every continuing path'
-            return 'cursor loop whose body does not advance the cursor on every path'
-        return 'while loop of an unrecognised form'
-    if k == 'DoStmt':
-        return 'do-while loop outside the decompressor'
-    return 'unrecognised loop'
+        cond, inc, body = c[0], None, c[-1]
+        what = 'while loop'
+    elif k == 'DoStmt':
+        c = children(n)
+        cond, inc, body = c[1], None, c[0]
+        what = 'do-while loop'
+    else:
+        return 'unrecognised loop'
+    if not cond.get('kind'):
+        return '%s without a condition' % what
+    r = _counted(f, cond, inc, body)
+    if r is not None:
+        return r
+    r = _cursor(f, cond, inc, body)
+    if r is not None:
+        return r
+    return '%s is neither counted (an integer stepped towards a bound that the loop leaves alone) ' \
+           'nor a cursor loop (a pointer advanced towards a limit on every path)' % what
 
 
 def _same_ref(a, b):
